@@ -263,10 +263,17 @@ def ensure(variant):
             shutil.rmtree(out, ignore_errors=True)
             return None
         open(os.path.join(out, "OK"), "w").write("%.1f\n" % (time.time() - t0))
-        # keep at most 3 builds per variant
-        olds = sorted(glob.glob(os.path.join(CACHE, variant + "-*")), key=lambda p: os.path.getmtime(os.path.join(p, "OK")) if os.path.exists(os.path.join(p, "OK")) else 0)
-        for p in olds[:-3]:
-            shutil.rmtree(p, ignore_errors=True)
+        # prune old builds of this variant: keep the 6 most recent, and never remove one used in the last 3 hours
+        # (a concurrent long run may still be executing binaries from it)
+        def stamp(p):
+            try:
+                return os.path.getmtime(os.path.join(p, "OK"))
+            except OSError:
+                return 0
+        olds = sorted(glob.glob(os.path.join(CACHE, variant + "-*")), key=stamp)
+        for p in olds[:-6]:
+            if time.time() - stamp(p) > 3 * 3600:
+                shutil.rmtree(p, ignore_errors=True)
         return out
     finally:
         fcntl.flock(lockf, fcntl.LOCK_UN)
